@@ -32,7 +32,7 @@ for d in sorted(glob.glob(os.path.join(os.path.dirname(__file__), "..", "seeded"
     else:  # round 2: first attempt vs after hardening
         parts = []
         for cp, h in m.get('checks_history', {}).items():
-            fa = h.get('first_attempt'); ah = h.get('after_hardening')
+            fa = h.get('first_attempt'); ah = h.get('after_second_hardening') or h.get('after_hardening') or h.get('after_first_hardening')
             txt = f"./check {cp}: "
             if fa is not None:
                 txt += ('detected' if fa['detected'] else 'missed') + ' at first'
@@ -41,7 +41,7 @@ for d in sorted(glob.glob(os.path.join(os.path.dirname(__file__), "..", "seeded"
             parts.append(txt)
         sig = ''
         for cp, h in m.get('checks_history', {}).items():
-            x = (h.get('after_hardening') or h.get('first_attempt'))
+            x = (h.get('after_second_hardening') or h.get('after_hardening') or h.get('after_first_hardening') or h.get('first_attempt'))
             if x and x['detected'] and not sig:
                 sig = x['signatures'][:110]
         print(f"| {m['id']} | {m['breaks_property']} | {conf} | {'; '.join(parts)} | `{sig}` |")
